@@ -388,7 +388,7 @@ func (b *Backend) respond(c *Conn, ex *Exchange, r *Resp) bool {
 		var ct string
 		chunks, ct = llmChunks(ex, tag, r)
 		if r.CType == "" {
-			r = &Resp{Kind: r.Kind, PreDelay: r.PreDelay, Status: r.Status, Headers: r.Headers, CType: ct, Framing: r.Framing, Fault: r.Fault, Gate: r.Gate, Tag: r.Tag, Chunks: chunks}
+			r = &Resp{Kind: r.Kind, PreDelay: r.PreDelay, Status: r.Status, Headers: r.Headers, CType: ct, Framing: r.Framing, Fault: r.Fault, Gate: r.Gate, GateMark: r.GateMark, Tag: r.Tag, Chunks: chunks}
 		}
 	}
 	total := 0
@@ -460,7 +460,15 @@ func (b *Backend) respond(c *Conn, ex *Exchange, r *Resp) bool {
 			}
 		}
 		if r.Gate && i > 0 {
-			if !b.sim.waitProgress(ex.Nonce, len(ex.BodyWrote), c) {
+			mark := ""
+			if r.GateMark {
+				for k := i - 1; k >= 0 && mark == ""; k-- {
+					mark = chunks[k].Mark
+				}
+			}
+			if r.GateMark && mark == "" {
+				// nothing attributable sent yet: no gate for this chunk
+			} else if !b.sim.waitProgress(ex.Nonce, len(ex.BodyWrote), c, mark) {
 				ex.GateTimeout = true
 				b.sim.Probe("gate.timeout")
 				return false
@@ -692,11 +700,12 @@ func (b *Backend) respondList(c *Conn, ex *Exchange) bool {
 // ---- client progress (causal gating) --------------------------------------
 
 type progress struct {
-	n  int
-	ch chan struct{}
+	n    int
+	body []byte
+	ch   chan struct{}
 }
 
-func (s *Sim) setProgress(nonce string, n int) {
+func (s *Sim) setProgress(nonce string, n int, body []byte) {
 	s.cntMu.Lock()
 	if s.prog == nil {
 		s.prog = map[string]*progress{}
@@ -707,14 +716,16 @@ func (s *Sim) setProgress(nonce string, n int) {
 		s.prog[nonce] = p
 	}
 	p.n = n
+	p.body = body
 	old := p.ch
 	p.ch = make(chan struct{})
 	s.cntMu.Unlock()
 	close(old)
 }
 
-// waitProgress blocks until the client of nonce has received >= n body bytes.
-func (s *Sim) waitProgress(nonce string, n int, c *Conn) bool {
+// waitProgress blocks until the client of nonce has received >= n body bytes, or, when mark is
+// not empty, until the client's decoded body contains mark.
+func (s *Sim) waitProgress(nonce string, n int, c *Conn, mark ...string) bool {
 	limit := time.After(s.gateLimit)
 	for {
 		s.cntMu.Lock()
@@ -727,8 +738,13 @@ func (s *Sim) waitProgress(nonce string, n int, c *Conn) bool {
 			s.prog[nonce] = p
 		}
 		have, ch := p.n, p.ch
+		seen := len(mark) > 0 && mark[0] != "" && bytes.Contains(p.body, []byte(mark[0]))
 		s.cntMu.Unlock()
-		if have >= n {
+		if len(mark) > 0 && mark[0] != "" {
+			if seen {
+				return true
+			}
+		} else if have >= n {
 			return true
 		}
 		select {
@@ -764,7 +780,7 @@ func llmChunks(ex *Exchange, tag string, r *Resp) ([]Chunk, string) {
 		out = append(out, Chunk{Data: "event: message_start\ndata: {\"type\":\"message_start\",\"message\":{\"id\":\"msg_" + tag + "\",\"type\":\"message\",\"role\":\"assistant\",\"model\":\"m\",\"content\":[],\"stop_reason\":null,\"usage\":{\"input_tokens\":3,\"output_tokens\":0}}}\n\n"})
 		out = append(out, Chunk{Data: "event: content_block_start\ndata: {\"type\":\"content_block_start\",\"index\":0,\"content_block\":{\"type\":\"text\",\"text\":\"\"}}\n\n"})
 		for _, w := range words {
-			out = append(out, Chunk{Data: "event: content_block_delta\ndata: {\"type\":\"content_block_delta\",\"index\":0,\"delta\":{\"type\":\"text_delta\",\"text\":" + q(w) + "}}\n\n"})
+			out = append(out, Chunk{Mark: llmMark(w), Data: "event: content_block_delta\ndata: {\"type\":\"content_block_delta\",\"index\":0,\"delta\":{\"type\":\"text_delta\",\"text\":" + q(w) + "}}\n\n"})
 		}
 		out = append(out, Chunk{Data: "event: content_block_stop\ndata: {\"type\":\"content_block_stop\",\"index\":0}\n\n"})
 		out = append(out, Chunk{Data: "event: message_delta\ndata: {\"type\":\"message_delta\",\"delta\":{\"stop_reason\":\"end_turn\"},\"usage\":{\"output_tokens\":5}}\n\n"})
@@ -777,11 +793,22 @@ func llmChunks(ex *Exchange, tag string, r *Resp) ([]Chunk, string) {
 	var out []Chunk
 	out = append(out, Chunk{Data: `data: {"id":"chatcmpl-` + tag + `","object":"chat.completion.chunk","created":1,"model":"m","choices":[{"index":0,"delta":{"role":"assistant","content":""},"finish_reason":null}]}` + "\n\n"})
 	for _, w := range words {
-		out = append(out, Chunk{Data: `data: {"id":"chatcmpl-` + tag + `","object":"chat.completion.chunk","created":1,"model":"m","choices":[{"index":0,"delta":{"content":` + q(w) + `},"finish_reason":null}]}` + "\n\n"})
+		out = append(out, Chunk{Mark: llmMark(w), Data: `data: {"id":"chatcmpl-` + tag + `","object":"chat.completion.chunk","created":1,"model":"m","choices":[{"index":0,"delta":{"content":` + q(w) + `},"finish_reason":null}]}` + "\n\n"})
 	}
 	out = append(out, Chunk{Data: `data: {"id":"chatcmpl-` + tag + `","object":"chat.completion.chunk","created":1,"model":"m","choices":[{"index":0,"delta":{},"finish_reason":"stop"}],"usage":{"prompt_tokens":3,"completion_tokens":5,"total_tokens":8}}` + "\n\n"})
 	out = append(out, Chunk{Data: "data: [DONE]\n\n"})
 	return out, "text/event-stream"
+}
+
+// llmMark: the part of a streamed word that looks the same in every JSON encoding
+func llmMark(w string) string {
+	w = strings.TrimSpace(w)
+	for _, c := range w {
+		if !(c >= 'a' && c <= 'z' || c >= 'A' && c <= 'Z' || c >= '0' && c <= '9') {
+			return ""
+		}
+	}
+	return w
 }
 
 func phaseData(ph *Phase) []byte {
